@@ -9,6 +9,7 @@ import (
 
 	"ocivet/internal/core"
 	"ocivet/internal/facts"
+	"ocivet/internal/load"
 )
 
 func init() {
@@ -95,19 +96,65 @@ func c16Shape(c *core.Ctx, rrc *ssa.Function) {
 			continue
 		}
 		nGo++
-		mc, ok := facts.Resolve(g.Call.Value).(*ssa.MakeClosure)
-		if !ok {
-			c.Fail("C16.R1", "runReadConcurrent/sender", g.Pos(), "spawned function is not a local closure")
+		sender, bind := spawnedFunc(g)
+		if sender == nil {
+			c.Fail("C16.R1", "runReadConcurrent/sender", g.Pos(), "spawned function is neither a local closure nor a function of the module")
 			continue
 		}
-		sender := mc.Fn.(*ssa.Function)
 		c.Analysed(facts.FuncName(sender))
-		c16Sender(c, sender, doneCh)
+		c16Sender(c, sender, doneCh, bind)
 	}
 	c.Check(nGo == 2, "C16.R1", "runReadConcurrent/two-senders", rrc.Pos(), "one sender per member", sprintf("%d goroutines are spawned; expected one per member", nGo))
 }
 
-func c16Sender(c *core.Ctx, sender *ssa.Function, doneCh ssa.Value) {
+// spawnedFunc: the function a go statement runs — a local closure, or a
+// function of the module called with arguments — and the map from a value of
+// that function to the spawner's value it stands for (a captured variable, or
+// the argument bound to a parameter).
+func spawnedFunc(g *ssa.Go) (*ssa.Function, func(ssa.Value) ssa.Value) {
+	if mc, ok := facts.Resolve(g.Call.Value).(*ssa.MakeClosure); ok {
+		return mc.Fn.(*ssa.Function), func(v ssa.Value) ssa.Value { return v }
+	}
+	sc := g.Call.StaticCallee()
+	if sc == nil || !load.InModule(sc) {
+		return nil, nil
+	}
+	if o := sc.Origin(); o != nil && (sc.Blocks == nil || sc.Synthetic != "") {
+		sc = o // an instantiation (wrapper) of a generic function: judge the generic body
+	}
+	if sc.Blocks == nil || len(sc.Params) != len(g.Call.Args) {
+		return nil, nil
+	}
+	args := g.Call.Args
+	return sc, func(v ssa.Value) ssa.Value {
+		r := v
+		for d := 0; d < 4; d++ {
+			if ct, ok := r.(*ssa.ChangeType); ok {
+				r = ct.X
+				continue
+			}
+			break
+		}
+		if p, ok := facts.Resolve(r).(*ssa.Parameter); ok {
+			for i, q := range sc.Params {
+				if q == p {
+					a := args[i]
+					for d := 0; d < 4; d++ {
+						if ct, ok := a.(*ssa.ChangeType); ok {
+							a = ct.X
+							continue
+						}
+						break
+					}
+					return a
+				}
+			}
+		}
+		return v
+	}
+}
+
+func c16Sender(c *core.Ctx, sender *ssa.Function, doneCh ssa.Value, bind func(ssa.Value) ssa.Value) {
 	key := "runReadConcurrent.sender"
 	var sel *ssa.Select
 	bad := 0
@@ -136,7 +183,7 @@ func c16Sender(c *core.Ctx, sender *ssa.Function, doneCh ssa.Value) {
 	for i, st := range sel.States {
 		if st.Dir == types.RecvOnly {
 			doneIdx = i
-			if doneCh != nil && chanIdent(st.Chan) == doneCh {
+			if doneCh != nil && chanIdent(bind(st.Chan)) == doneCh {
 				doneMatches = true
 			}
 		}
